@@ -693,6 +693,27 @@ impl<'a, W: Write> YamlSerializer<'a, W> {
         self.write_indent_cols(self.indent_step * depth)
     }
 
+    /// The column for a line that opens a node nested `depth` levels deep: levels times
+    /// `indent_step` as usual, but in any case deeper than the entry the node belongs to. The
+    /// level alone does not guarantee that when "- " is wider than one indentation step
+    /// (`indent_step: 1`: in `- key:` the key sits in the column of level 2).
+    fn child_col(&self, depth: usize) -> usize {
+        self.col_below(self.indent_step * depth, self.block_parent_col)
+    }
+
+    /// `col` if that is deeper than the entry starting at `parent_col`, else one step below it.
+    fn col_below(&self, col: usize, parent_col: Option<usize>) -> usize {
+        match parent_col {
+            Some(parent_col) if col <= parent_col => parent_col + self.indent_step,
+            _ => col,
+        }
+    }
+
+    /// Like `write_indent`, for a line that opens a nested node (see `child_col`).
+    fn write_child_indent(&mut self, depth: usize) -> Result<()> {
+        self.write_indent_cols(self.child_col(depth))
+    }
+
     /// Like `write_indent`, with the indentation given in columns instead of levels.
     #[inline]
     fn write_indent_cols(&mut self, cols: usize) -> Result<()> {
@@ -1442,7 +1463,7 @@ impl<'a, 'b, W: Write> Serializer for &'a mut YamlSerializer<'b, W> {
             // When used as a mapping value, indent relative to the parent mapping's base,
             // not the serializer's current depth (which may still be the outer level).
             let base = self.current_map_depth.unwrap_or(self.depth);
-            self.write_indent(base + 1)?;
+            self.write_child_indent(base + 1)?;
             let prev_parent_col = self.block_parent_col.replace(self.out.col);
             self.write_plain_or_quoted(variant)?;
             // Write ':' without trailing space, then mark that a space may be needed
@@ -1466,7 +1487,7 @@ impl<'a, 'b, W: Write> Serializer for &'a mut YamlSerializer<'b, W> {
         let dash_depth = self.after_dash_depth.take();
         if anchored {
             self.newline()?;
-            self.write_indent(dash_depth.map_or(self.depth, |d| d + 1))?;
+            self.write_child_indent(dash_depth.map_or(self.depth, |d| d + 1))?;
         } else if self.at_line_start {
             self.write_indent(self.depth)?;
         }
@@ -1582,13 +1603,21 @@ impl<'a, 'b, W: Write> Serializer for &'a mut YamlSerializer<'b, W> {
             };
             // Starting a complex (block) sequence: drop any staged inline comment.
             self.pending_inline_comment = None;
+            // The column of the dashes if they start on a line of their own: deeper than the
+            // parent entry, except that a sequence may share the column of the key it is the
+            // value of (that is what `compact_list_indent` is about).
+            let item_col = if !inline_first && was_inline_value && depth_next == base {
+                (self.indent_step * depth_next).max(self.block_parent_col.unwrap_or(0))
+            } else {
+                self.child_col(depth_next)
+            };
             Ok(SeqSer {
                 ser: self,
                 depth: depth_next,
                 flow: false,
                 first: true,
                 after_anchor,
-                item_col: None,
+                item_col: Some(item_col),
             })
         }
     }
@@ -1645,7 +1674,7 @@ impl<'a, 'b, W: Write> Serializer for &'a mut YamlSerializer<'b, W> {
             self.pending_space_after_colon = false;
             self.newline()?;
             let base = self.current_map_depth.unwrap_or(self.depth) + 1;
-            self.write_indent(base)?;
+            self.write_child_indent(base)?;
             base + 1
         } else {
             // Top-level or sequence context. After a list dash the fields go two levels under
@@ -1653,23 +1682,25 @@ impl<'a, 'b, W: Write> Serializer for &'a mut YamlSerializer<'b, W> {
             let dash_depth = self.after_dash_depth.take();
             if anchored {
                 self.newline()?;
-                self.write_indent(dash_depth.map_or(self.depth, |d| d + 1))?;
+                self.write_child_indent(dash_depth.map_or(self.depth, |d| d + 1))?;
             } else if self.at_line_start {
                 self.write_indent(self.depth)?;
             }
             dash_depth.map_or(self.depth + 1, |d| d + 2)
         };
+        let variant_col = self.out.col;
         self.write_plain_or_quoted(variant)?;
         self.out.write_str(":\n")?;
         self.at_line_start = true;
-        // The first field starts a line of its own.
+        // The first field starts a line of its own, below the variant name.
         self.pending_inline_map = false;
+        let item_col = self.col_below(self.indent_step * depth_next, Some(variant_col));
         Ok(TupleVariantSer {
             ser: self,
             depth: depth_next,
             flow: false,
             first: true,
-            item_col: None,
+            item_col: Some(item_col),
         })
     }
 
@@ -1805,6 +1836,8 @@ impl<'a, 'b, W: Write> Serializer for &'a mut YamlSerializer<'b, W> {
                 depth: 0,
                 flow: true,
                 first: true,
+                variant_col: 0,
+                field_col: None,
             });
         }
         let in_value_position = self.pending_space_after_colon;
@@ -1817,7 +1850,8 @@ impl<'a, 'b, W: Write> Serializer for &'a mut YamlSerializer<'b, W> {
             self.newline()?;
             // Indent the variant name one level under the parent mapping.
             let base = self.current_map_depth.unwrap_or(self.depth) + 1;
-            self.write_indent(base)?;
+            self.write_child_indent(base)?;
+            let variant_col = self.out.col;
             self.write_plain_or_quoted(variant)?;
             self.out.write_str(":\n")?;
             self.at_line_start = true;
@@ -1828,16 +1862,19 @@ impl<'a, 'b, W: Write> Serializer for &'a mut YamlSerializer<'b, W> {
                 depth: depth_next,
                 flow: false,
                 first: true,
+                variant_col,
+                field_col: None,
             });
         }
         // Otherwise (top-level or sequence context), emit the variant name at current depth.
         let dash_depth = self.after_dash_depth.take();
         if anchored {
             self.newline()?;
-            self.write_indent(dash_depth.map_or(self.depth, |d| d + 1))?;
+            self.write_child_indent(dash_depth.map_or(self.depth, |d| d + 1))?;
         } else if self.at_line_start {
             self.write_indent(self.depth)?;
         }
+        let variant_col = self.out.col;
         self.write_plain_or_quoted(variant)?;
         self.out.write_str(":\n")?;
         self.at_line_start = true;
@@ -1853,6 +1890,8 @@ impl<'a, 'b, W: Write> Serializer for &'a mut YamlSerializer<'b, W> {
             depth: depth_next,
             flow: false,
             first: true,
+            variant_col,
+            field_col: None,
         })
     }
 }
@@ -1935,7 +1974,7 @@ impl<'a, 'b, W: Write> SerializeSeq for SeqSer<'a, 'b, W> {
             } else if let Some(col) = self.item_col {
                 self.ser.write_indent_cols(col)?;
             } else {
-                self.ser.write_indent(self.depth)?;
+                self.ser.write_child_indent(self.depth)?;
             }
             let dash_col = self.ser.out.col;
             self.item_col = Some(dash_col);
@@ -1975,7 +2014,7 @@ impl<'a, 'b, W: Write> SerializeSeq for SeqSer<'a, 'b, W> {
                 }
                 // If at line start, indent appropriately.
                 if self.ser.at_line_start {
-                    self.ser.write_indent(self.depth)?;
+                    self.ser.write_child_indent(self.depth)?;
                 }
                 self.ser.out.write_str("[]")?;
                 self.ser.newline()?;
@@ -2350,7 +2389,7 @@ impl<W: Write> MapSer<'_, '_, W> {
             self.ser
                 .write_indent_cols(self.ser.indent_step * base + 2)?; // width of "- "
         } else {
-            self.ser.write_indent(self.depth)?;
+            self.ser.write_child_indent(self.depth)?;
         }
         self.entry_col = self.ser.out.col;
         self.first_entry_col = Some(self.entry_col);
@@ -2511,7 +2550,7 @@ impl<'a, 'b, W: Write> SerializeMap for MapSer<'a, 'b, W> {
                         self.ser.out.write_str("  ")?; // width of "- "
                         self.ser.at_line_start = false;
                     } else {
-                        self.ser.write_indent(self.depth)?;
+                        self.ser.write_child_indent(self.depth)?;
                     }
                 }
                 self.ser.out.write_str("{}")?;
@@ -2557,6 +2596,10 @@ pub struct StructVariantSer<'a, 'b, W: Write> {
     flow: bool,
     /// Whether the next field is the first (comma handling in flow style).
     first: bool,
+    /// Column at which the variant name starts (block style); the fields go deeper.
+    variant_col: usize,
+    /// Column of the fields (block style), once the first one is written.
+    field_col: Option<usize>,
 }
 impl<'a, 'b, W: Write> SerializeStructVariant for StructVariantSer<'a, 'b, W> {
     type Ok = ();
@@ -2577,7 +2620,11 @@ impl<'a, 'b, W: Write> SerializeStructVariant for StructVariantSer<'a, 'b, W> {
             self.ser.out.write_str(": ")?;
             return self.ser.with_in_flow(|s| value.serialize(s));
         }
-        self.ser.write_indent(self.depth)?;
+        let field_col = *self.field_col.get_or_insert_with(|| {
+            self.ser
+                .col_below(self.ser.indent_step * self.depth, Some(self.variant_col))
+        });
+        self.ser.write_indent_cols(field_col)?;
         let prev_parent_col = self.ser.block_parent_col.replace(self.ser.out.col);
         self.ser.out.write_str(&text)?;
         // Defer spacing/newline decision to the value serializer similarly to map entries.
